@@ -9,7 +9,8 @@ TRACE_CFG = "GdefCursTrace.cfg"
 RULE = ("random Latin / Arabic fonts x category maps (all five values, invalid values, glyphs not exported or unknown) x caret_ / "
         "vcaret_ anchor sets (fractional, duplicate coordinates) x entry/exit anchors (one-sided, suffixed .LTR/.RTL/.alt pairs, "
         "mixed-direction repertoires, alternates reached through GSUB) x optional user GDEF block x skipExportGlyphs; default "
-        "feature writers; non-trivial = the font has categories, carets or cursive anchors; distinct by source digest")
+        "feature writers, or (one case in four) one list of writer instances handed to two or three successive compiles of "
+        "different fonts; non-trivial = the font has categories, carets or cursive anchors; distinct by source digest")
 ASSUMPTIONS = ["without any assigned category feaLib infers the glyph classes from the positioning rules (environment): no clause then"]
 
 
@@ -24,11 +25,28 @@ def cases(tier, seed):
     for k in range(n):
         c = layout_gen.gdefcurs_font(rng)
         c.update({"cid": f"c18-{seed}-{k}", "lib": rng.choice(["ufoLib2", "defcon"]), "writers": "default"})
+        if k % 4 == 3:
+            # the same writer objects serve several fonts in a row (as they do for the masters of a family)
+            c["writers"] = ["kern", "mark", "gdef", "curs"]
+            c["then"] = []
+            for j in range(rng.randint(1, 2)):
+                d = layout_gen.gdefcurs_font(rng)
+                d.update({"cid": f"c18-{seed}-{k}+{j + 1}", "lib": c["lib"], "writers": c["writers"]})
+                c["then"].append(d)
         out.append(c)
     return out
 
 
 def execute(case):
+    if case.get("then"):
+        ws = layout_exec._writers(case)
+        recs = []
+        for c in [case] + case["then"]:
+            f2, fea, data = layout_exec.compile_layout(c, writer_objs=ws)
+            rec = layout_exec.gdefcurs_record(c, f2, c["cid"])
+            rec["_fea"] = fea
+            recs.append(rec)
+        return recs
     f2, fea, data = layout_exec.compile_layout(case)
     rec = layout_exec.gdefcurs_record(case, f2, case["cid"])
     rec["_fea"] = fea
